@@ -339,6 +339,8 @@ theorem truthInv_step (hist : List Ev) (s : S) (e : Ev) (s' : S) (I : TruthInv h
     · simp only [Option.some.injEq] at h; subst h; exact truth_keep _ I rfl
     · simp at h
 
+  | cancelAll => simp only [step, Option.some.injEq] at h; subst h; exact truth_keep _ I rfl
+  | restart => simp only [step, Option.some.injEq] at h; subst h; exact truth_keep _ I rfl
 theorem truthInv_reach {tr : List Ev} {s : S} (h : run init tr = some s) : TruthInv tr s :=
   inv_reach TruthInv truthInv_init truthInv_step tr s h
 
@@ -506,6 +508,8 @@ theorem kindInv_step (hist : List Ev) (s : S) (e : Ev) (s' : S) (I : KindInv his
     · simp only [Option.some.injEq] at h; subst h; exact kind_keep I rfl (by intro _ _ _ h; cases h) (fun p sl h => ⟨sl, h, rfl, rfl, rfl⟩)
     · simp at h
 
+  | cancelAll => simp only [step, Option.some.injEq] at h; subst h; exact kind_keep I rfl (by intro _ _ _ h; cases h) (fun p sl h => ⟨sl, h, rfl, rfl, rfl⟩)
+  | restart => simp only [step, Option.some.injEq] at h; subst h; exact kind_keep I rfl (by intro _ _ _ h; cases h) (fun p sl h => ⟨sl, h, rfl, rfl, rfl⟩)
 theorem kindInv_reach {tr : List Ev} {s : S} (h : run init tr = some s) : KindInv tr s :=
   inv_reach KindInv kindInv_init kindInv_step tr s h
 
@@ -586,6 +590,8 @@ theorem opsInv_step (hist : List Ev) (s : S) (e : Ev) (s' : S) (I : OpsInv hist 
       simp only [step] at h; split at h
       · simp only [Option.some.injEq] at h; subst h; exact ⟨fun _ ho => ho, by intro o k n he; cases he⟩
       · simp at h
+    | cancelAll => simp only [step, Option.some.injEq] at h; subst h; exact ⟨fun _ ho => ho, by intro o k n he; cases he⟩
+    | restart => simp only [step, Option.some.injEq] at h; subst h; exact ⟨fun _ ho => ho, by intro o k n he; cases he⟩
     | doneOk op rcs props =>
       simp only [step] at h
       repeat' split at h
